@@ -275,6 +275,23 @@ static void zygote_start(Engine &e) {
     for (auto &s : g_slots) { close(s.srv); s.srv = -1; }
 }
 
+// processor time (user + system) a process has consumed so far, in seconds; 0 if it cannot be read
+static double child_cpu_s(pid_t pid) {
+    char path[64], buf[1024];
+    snprintf(path, sizeof path, "/proc/%d/stat", (int)pid);
+    FILE *f = fopen(path, "r");
+    if (!f) return 0;
+    size_t n = fread(buf, 1, sizeof buf - 1, f);
+    fclose(f);
+    buf[n] = 0;
+    const char *p = strrchr(buf, ')');  // (the command name may contain spaces)
+    if (!p) return 0;
+    unsigned long ut = 0, stt = 0;
+    // fields after the name: state ppid pgrp session tty tpgid flags minflt cminflt majflt cmajflt utime stime
+    if (sscanf(p + 1, " %*c %*d %*d %*d %*d %*d %*u %*u %*u %*u %*u %lu %lu", &ut, &stt) != 2) return 0;
+    return (double)(ut + stt) / (double)sysconf(_SC_CLK_TCK);
+}
+
 RunResult run_plan_in_child(Engine &e, const std::string &plan, bool verbose, int log_fd) {
     Slot &sl = g_slots[g_slot];
     Shm *shm = sl.shm;
@@ -307,8 +324,10 @@ RunResult run_plan_in_child(Engine &e, const std::string &plan, bool verbose, in
                 continue;
             }
             if (n < 0 && errno != EINTR) { server_gone = true; break; }
-            if (!timed_out && now_s() - t0 > e.run_timeout_s) { kill(pid, SIGKILL); timed_out = true; }
-            if (timed_out && now_s() - t0 > e.run_timeout_s + 30) { server_gone = true; break; }
+            // The budget of a run is processor time, not wall-clock time: on a loaded machine a run that is merely waiting for its turn must
+            // not be mistaken for one that hangs (a wall-clock limit of eight times the budget remains, for a child that sleeps for ever)
+            if (!timed_out && (child_cpu_s(pid) > e.run_timeout_s || now_s() - t0 > 8.0 * e.run_timeout_s)) { kill(pid, SIGKILL); timed_out = true; t0 = now_s(); }
+            else if (timed_out && now_s() - t0 > 30) { server_gone = true; break; }
         }
     }
     if (server_gone) {
